@@ -459,7 +459,13 @@ class GroupEffectsMatrix:
             groups = term.groups
             term_slice = self.slices[name]
             term_slice_width = get_slice_width(term_slice)
-            levels_n = len(term.expr.levels) if has_levels else 1
+            # Number of columns of the effect: a numeric effect can have several columns too
+            # (e.g. bs(x, df=4) or poly(x, 2)) and a numeric interaction has an empty list of levels
+            expr_data = getattr(term.expr, "data", None)
+            if getattr(expr_data, "ndim", 1) == 2:
+                levels_n = expr_data.shape[1]
+            else:
+                levels_n = len(term.expr.levels) if has_levels else 1
             if term_slice_width != len(groups) * levels_n:  # Has extra groups
                 assert (
                     term_slice_width == (len(groups) + 1) * levels_n
